@@ -800,7 +800,7 @@ def race_handler(job, tier, seed, workdir, drv):
     for i in range(runs):
         # odd runs are COLD: a fresh process in which every thread's first
         # constructions and calls happen concurrently (no warm-up)
-        p = subprocess.run([exe, "--threads", str(2 + i % 7), "--rounds", "3"] + (["--cold"] if i % 2 else []), stdout=subprocess.PIPE, stderr=subprocess.PIPE, text=True, timeout=600)
+        p = subprocess.run([exe, "--threads", str(2 + i % 7), "--rounds", "3"] + (["--cold", "--first", str((i // 2) % 8)] if i % 2 else []), stdout=subprocess.PIPE, stderr=subprocess.PIPE, text=True, timeout=600)
         m = re.search(r"RACE-HARNESS threads=(\d+) rounds=\d+ calls=(\d+) mismatches=(\d+)", p.stdout)
         if p.returncode < 0:
             violations.append({"class": "crash", "what": "[crash] the race harness died with signal %d on %d real threads" % (-p.returncode, 2 + i % 7), "replay_argv": None, "detail": {"class": "crash"}})
@@ -842,7 +842,7 @@ def race_handler(job, tier, seed, workdir, drv):
            "histogram": {"helgrind reports (all)": len(reports), "helgrind reports with a frame in the crate and no atomic access": len(in_crate)},
            "samples": [{"harness": "2..8 real threads; every dispatched routine on 14 lengths, 10 needles x 10 haystack lengths through the free functions, fresh and SHARED Finder/FinderRev, is_equal/is_prefix/is_suffix", "runs": runs}],
            "violation_count": len(violations), "violations": violations[:8], "machinery_errors": [], "caps_hit": [],
-           "extra": {"exhaustive": True, "nontrivial_rule": "every call is compared with the naive reference", "bounds": {"native_runs": runs, "of_which_cold_processes": runs // 2, "threads": "2..8", "helgrind_runs": "1 warm + 1 cold"},
+           "extra": {"exhaustive": True, "nontrivial_rule": "every call is compared with the naive reference", "bounds": {"native_runs": runs, "of_which_cold_processes": runs // 2, "cold_first_call_sweep": "in 7 of every 8 cold processes all threads make the process's first call to each of the seven dispatched routines together (spin barrier per routine, rotating which routine is first), on haystacks whose first / last / count answers differ", "threads": "2..8", "helgrind_runs": "1 warm + 1 cold"},
                      "note": "free-running complement of the loom exploration: schedules are NOT enumerated here; helgrind's happens-before analysis flags conflicting unsynchronised accesses independently of the schedule that happened to run"}}
     for v in violations:
         res["histogram"]["violation/" + v["class"]] = res["histogram"].get("violation/" + v["class"], 0) + 1
@@ -852,7 +852,7 @@ def race_handler(job, tier, seed, workdir, drv):
 
 
 PROPERTIES["C15"]["jobs"] += [{"name": "race harness (real threads; helgrind)", "handler": race_handler, "classes": None}]
-PROPERTIES["C15"]["explanation"] += " Complement for what has no scheduling point: the same kind of bodies (every dispatched routine, free functions with different needles, one shared Finder/FinderRev) run on 2..8 REAL threads, natively (every answer compared with the reference) and once under valgrind's helgrind; a conflicting pair of unsynchronised, non-atomic accesses with a frame inside the crate (a `static mut` scratch buffer, a cache behind `unsafe impl Sync`) is a violation. The dispatch cells are warmed first - their racy first calls are loom's part."
+PROPERTIES["C15"]["explanation"] += " Complement for what has no scheduling point: the same kind of bodies (every dispatched routine, free functions with different needles, one shared Finder/FinderRev) run on 2..8 REAL threads, natively (every answer compared with the reference) and once under valgrind's helgrind; a conflicting pair of unsynchronised, non-atomic accesses with a frame inside the crate (a `static mut` scratch buffer, a cache behind `unsafe impl Sync`) is a violation. The dispatch cells are warmed first in the helgrind pass - their racy first calls are loom's part; the native COLD processes make every routine's first call on all threads at once (barrier per routine, answers compared), so a stand-in routine that an installation protocol runs during detection is also seen on the real build."
 PROPERTIES["C15"]["assumptions"] = [a for a in PROPERTIES["C15"]["assumptions"] if "race detector" not in a] + ["the helgrind pass is free-running (its schedules are not enumerated); it is a monitor for unsynchronised accesses that the loom exploration cannot see, not the deciding exploration"]
 
 
